@@ -17,6 +17,11 @@ def getter(name, local):
     return E.m_calls(name) & E.M(lambda t: E.m_is_ref(local)(E.strip(t)["o"]), "on(%s)" % local)
 
 
+def m_eq(a, b):
+    """`a == b` in either operand order"""
+    return E.m_cmp("==", a, b) | E.m_cmp("==", b, a)
+
+
 def result_of(ck, fn, callee, on=None):
     """local helper: atom is a call of `callee` (on local object `on`), or a local whose every definition is exactly such a call
     (so hoisting a tested call into a const local is not reported)"""
@@ -63,7 +68,7 @@ def run(ck):
     fl = ck.flow(fin, markers={"mark": setter(LS + "finalized")})
     size = E.m_is_mem(LE + "size")
     for m, v, why in [(E.m_cmp("<", E.m_is_ref("slotId"), E.m_const(0)), True, "an entry whose chain walk stopped before the chain end would become readable"),
-                      (E.m_cmp("==", E.m_is_ref("mappedSize"), size), True, "an entry whose slices do not add up to its size would become readable"),
+                      (m_eq(E.m_is_ref("mappedSize"), size), True, "an entry whose slices do not add up to its size would become readable"),
                       (E.m_cmp("<", E.m_const(0), size), True, "an entry with no payload/no chain would become readable")]:
         ck.require_fact("F1.publish-gates", fl, publish, m, v, "ENTRY_VALIDATED|closeForWriting", min_sites=2, why="(%s)" % why)
 
@@ -191,10 +196,10 @@ def run(ck):
     tot = E.m_is_ref("totalSize")
     swapsz = E.M(lambda t: any(m.endswith("::swap_file_sz") for m in E.mentions(t)), "swap_file_sz")
     imported = result_of(ck, ase, RB + "importEntry")
-    same_size = E.m_cmp("==", tot, swapsz)
+    same_size = m_eq(tot, swapsz)
     over = E.m_cmp("<", tot, size)
     # the inode-conflict test is the le.anchored() evaluation made under (header.firstSlot == slotId); the earlier one only picks the chain head
-    inode = E.m_cmp("==", E.m_is_mem("Rock::DbCellHeader::firstSlot"), E.m_is_ref("slotId"))
+    inode = m_eq(E.m_is_mem("Rock::DbCellHeader::firstSlot"), E.m_is_ref("slotId"))
     inner = [e for e in ck.trigger_edges(ase, getter(LE + "anchored", "le"), True)
              if any(n[0] == e[0] and any(f[0] == "A" and f[2] and inode(flp.trees[f[1]]) for f in fs) for n, fs in flp.IN.items())]
     ck.need(len(inner) == 1, "C57: the inode-conflict test (le.anchored() under firstSlot == slotId) was not found in addSlotToEntry")
@@ -219,7 +224,7 @@ def run(ck):
                    "totalSize = swap_file_sz", why="(an inode slot whose entrySize contradicts the stored size would be accepted)")
     ck.require_any("A2.overflow-not-mapped", ase, ev_call(RB + "mapSlot"), [(E.m_cmp("<", E.m_const(0), tot), False), (over, False)], "mapSlot()",
                    why="(a chain longer than the entry size would be mapped)")
-    ck.require_fact("A2.finalize-when-complete", flp, ev_call(RB + "finalizeOrFree"), E.m_cmp("==", size, tot), True, "finalizeOrFree()",
+    ck.require_fact("A2.finalize-when-complete", flp, ev_call(RB + "finalizeOrFree"), m_eq(size, tot), True, "finalizeOrFree()",
                     why="(an entry still expecting slots would be finalized)")
 
     # ------------------------------------------------------------------ slot flags
